@@ -1,6 +1,6 @@
 """C11 - ExtendedFeatures generates exactly scikit-learn's polynomial features."""
 from vf import loader
-from vf.core import Clause, Outcome, Violation, require
+from vf.core import Clause, Outcome, Violation, require, np_scalars, with_np
 
 import re
 import numpy as np
@@ -14,7 +14,7 @@ RULE = ("config-exhaustive: EVERY (n_features 1..7 quick / 1..9 thorough, plus w
         "real-matrices: Hypothesis-drawn configuration and dyadic real matrix (zeros, negatives, int64/float32/float64), transformed in four memory layouts, twice, and followed by a second batch of the same shape through the same fitted object (right columns; the first result keeps its values). "
         "tall: 2-4 columns x degree 2-3 on 8739..33333 rows (4097..100003 thorough), sizes at which an implementation may start working block by block. "
         "Oracle: sklearn PolynomialFeatures (same arguments) column by column, and feature names parsed into exponent multisets. "
-        "Non-trivial: degree >= 2. Distinct = distinct configuration (exhaustive clause) / distinct case.")
+        "Non-trivial: degree >= 2. One case in three passes its scalar hyper-parameters as NumPy scalars (numpy.bool_, numpy.int64, numpy.float64). Distinct = distinct configuration (exhaustive clause) / distinct case.")
 ASSUMPTIONS = ["PolynomialFeatures of the installed scikit-learn is the reference",
                "string equality of feature names with scikit-learn's is not demanded; a name must denote the monomial in its column",
                "the step from 'every configuration on an identifying matrix' to 'all X' rests on the recurrence being data independent"]
@@ -57,9 +57,9 @@ def _parse_name(name, n):
     return tuple(exps)
 
 
-def _run(cfg, X, facts):
-    ef = _ef.ExtendedFeatures(kind=cfg["kind"], poly_degree=cfg["degree"], poly_interaction_only=cfg["interaction_only"],
-                              poly_include_bias=cfg["include_bias"])
+def _run(cfg, X, facts, np_params=False):
+    ef = _ef.ExtendedFeatures(**np_scalars(dict(kind=cfg["kind"], poly_degree=cfg["degree"], poly_interaction_only=cfg["interaction_only"],
+                                                poly_include_bias=cfg["include_bias"]), np_params))
     r = ef.fit(X)
     require(r is ef, "fit:not-self", "fit returned %r" % type(r), facts)
     out = ef.transform(X)
@@ -159,7 +159,7 @@ def check_real(case):
     X = np.array(case["X"], dtype=dt).reshape(len(case["X"]), cfg["n"])
     X0 = X.copy()
     facts = dict(cfg, dtype=case["dtype"])
-    ef, out, ref = _run(cfg, X, facts)
+    ef, out, ref = _run(cfg, X, facts, np_params=case.get("np_params", False))
     require(np.array_equal(X, X0), "input-modified", "", facts)
     # other memory layouts of the same matrix and a second call on the same fitted object give the same columns
     again = ef.transform(X)
@@ -211,6 +211,6 @@ CLAUSES = [
            doc="every configuration in the bounds on a prime matrix: columns, n_output_features_, names"),
     Clause("tall", check_tall, cases=_tall_configs, quick_shards=8, thorough_shards=16, exhaustive=True,
            doc="inputs of 4e3..1e5 rows: every row equals PolynomialFeatures'"),
-    Clause("real-matrices", check_real, strategy=lambda tier: _real_cases(tier), quick=1500, thorough=30000, quick_shards=8,
+    Clause("real-matrices", check_real, strategy=lambda tier: with_np(_real_cases(tier)), quick=1500, thorough=30000, quick_shards=8,
            doc="drawn configuration x drawn dyadic matrix; both kinds; input untouched"),
 ]
